@@ -94,7 +94,12 @@ def install_crash(world):
 # --------------------------------------------------------------------------
 # database faults (C17)
 
-FAULT_KINDS = ('deadlock', 'deadlock+rollback', 'duplicate', 'dberror')
+# the `commit-*` kinds strike at the COMMIT of a transaction that wrote
+# something (Galera-style certification failure reported as a deadlock; a
+# connection or server error at commit): the database has rolled the
+# transaction back
+FAULT_KINDS = ('deadlock', 'deadlock+rollback', 'duplicate', 'dberror',
+               'commit-deadlock', 'commit-dberror')
 
 
 class FaultHook(Hooks):
@@ -108,6 +113,32 @@ class FaultHook(Hooks):
         self.injected = []      # (statement index, kind, table)
         self.statements = 0
         self.world = world
+        self._wrote = set()     # sessions whose open transaction has written
+
+    @staticmethod
+    def _skey(session):
+        return id(getattr(session, '_s', None) or session)
+
+    def on_begin(self, session):
+        self._wrote.discard(self._skey(session))
+
+    def on_commit(self, session):
+        key = self._skey(session)
+        wrote = key in self._wrote
+        self._wrote.discard(key)
+        if not wrote or len(self.injected) >= self.budget:
+            return
+        kinds = [k for k in self.kinds if k.startswith('commit-')]
+        if not kinds:
+            return
+        k = symex.choose(1 + len(kinds), 'fault')
+        if k == 0:
+            return
+        kind = kinds[k - 1]
+        self.injected.append((self.statements, kind, 'Commit'))
+        if kind == 'commit-deadlock':
+            raise db_exc.DBDeadlock('injected deadlock at COMMIT')
+        raise db_exc.DBError('injected database error at COMMIT')
 
     def _fault(self, session, kind, what):
         if kind == 'deadlock':
@@ -159,21 +190,27 @@ class FaultHook(Hooks):
     def on_execute(self, session, stmt):
         if self._busy:
             return
+        if isinstance(stmt, (sa.sql.dml.Insert, sa.sql.dml.Update,
+                             sa.sql.dml.Delete)):
+            self._wrote.add(self._skey(session))
         i = self.statements
         self.statements += 1
         if len(self.injected) >= self.budget:
             return
         if self.only is not None and not self.only(stmt):
             return
-        kinds = [k for k in self.kinds if k != 'duplicate' or (
-            isinstance(stmt, sa.sql.dml.Insert) and
-            stmt.table.name in self.DUP_TABLES)]
+        kinds = [k for k in self.kinds if not k.startswith('commit-') and (
+            k != 'duplicate' or (
+                isinstance(stmt, sa.sql.dml.Insert) and
+                stmt.table.name in self.DUP_TABLES))]
         k = symex.choose(1 + len(kinds), 'fault')
         if k == 0:
             return
         kind = kinds[k - 1]
         self._stmt = stmt
         what = type(stmt).__name__
+        if what.startswith('Annotated'):     # ORM-built DML on the real side
+            what = what[len('Annotated'):]
         tbl = getattr(getattr(stmt, 'table', None), 'name', None)
         if tbl is None:
             try:
@@ -200,6 +237,7 @@ def install_faults(world, kinds=FAULT_KINDS, budget=1, only=None):
 
     def after_begin(session, transaction, connection):
         sessions[id(connection)] = session
+        h.on_begin(session)
 
     def before_execute(conn, clauseelement, multiparams, params,
                        execution_options):
@@ -210,7 +248,14 @@ def install_faults(world, kinds=FAULT_KINDS, budget=1, only=None):
             return
         s = sessions.get(id(conn))
         h.on_execute(_RealSessionProxy(s, conn), clauseelement)
+
+    def before_commit(session):
+        # SQLAlchemy fires before_commit ahead of the flush; the fault is
+        # decided where the COMMIT itself would be sent (as SymSession does)
+        session.flush()
+        h.on_commit(session)
     rl.listen(Session, 'after_begin', after_begin)
+    rl.listen(Session, 'before_commit', before_commit)
     rl.listen(world.backend.engine, 'before_execute', before_execute)
     return h, rl.remove
 
